@@ -42,8 +42,20 @@ def make_input(rng):
         body = bytes(rng.randrange(256) for _ in range(rng.randint(0, 60)))
         return "random-after-prefix", b"BBCD" + bytes([rng.choice([0x00, 0x10, 0x20, 0x30, 0xC8, 0xE8, 0xCC, 0xEC])]) + body
     desc, data, pics = common.encoder_stream(rng)
-    if r < 0.3:
-        return "conformant", data
+    if r < 0.45:
+        # 1-3 concatenated conformant sequences (differing configurations), some with extra padding units
+        parts = [data]
+        for _ in range(rng.choice([0, 1, 1, 2])):
+            parts.append(common.encoder_stream(rng)[1])
+        if rng.random() < 0.4:
+            pad = b"BBCD\x30" + (13 + 4).to_bytes(4, "big") + (0).to_bytes(4, "big") + b"\x00" * 4
+            eos = b"BBCD\x10" + (0).to_bytes(4, "big") + (17).to_bytes(4, "big")
+            hdr_only = parts[0]
+            # a tiny extra sequence made of the first sequence's header + padding + end of sequence is hard to
+            # build by byte surgery; instead append trailing data after the last end of sequence
+            parts.append(rng.choice([b"BBCD", b"BBCD\x10", b"BBCD\x10\x00\x00\x00\x00\x00\x00\x00\x00", b"BBC", b"junk!"]))
+        data = b"".join(parts)
+        return ("conformant-x%d" % len(parts)), data
     kind = "m"
     for _ in range(rng.choice([1, 1, 1, 2, 3])):
         k, data = common.mutate(data, rng)
@@ -99,7 +111,7 @@ def one_case(job):
 
 def run(ctx):
     ctx.extra["rule"] = (
-        "byte strings: 12% random bytes, 8% random bytes after a valid parse_info prefix, 10% conformant encoder streams, 70% "
+        "byte strings: 12% random bytes, 8% random bytes after a valid parse_info prefix, 25% one to three concatenated conformant encoder streams (some with trailing data), 55% "
         "encoder streams with 1-3 random mutations; the REAL viewer main() is run in-process with default options (25%) or one of "
         "15 sampled option sets; streams declaring sizes beyond common.GUARD_LIMITS are out of scope; non-trivial = the viewer "
         "ran to a status; distinct by case index")
